@@ -157,8 +157,7 @@ def rule_r3(ctx):
     ctx.r.violation(rid, key_of(f, None, "no-pull-after-flush"), "no wake-up after the flush attempt in write_soon", f.loc(fl.ast))
 
 
-def rule_r4(ctx):
-    rid = "C05.R4"
+def rule_r4(ctx, rid="C05.R4"):
     ctx.r.rule(rid, "predicates agree with publishers: writable() is true under pending output / will_close / close_when_flushed; handle_write relays close_when_flushed to will_close only when nothing is left to send")
     p = ctx.p
     f = p.func("channel.HTTPChannel.writable")
